@@ -37,6 +37,7 @@ PROPERTY = "C03"
 LEAN_MODULES = ["SpaModel.Props.C03"]
 AUDIT = "SpaModel/Audit/C03.lean"
 DRIVER = "drivers/C03.lean"
+TABLES = True          # the operator tables of the operand classes are regenerated from the source
 RULE = ("one case = one program (operand objects + operations, accepted expressions completed with `>> sink`); "
         "key = canonical token string of the program + realisation variant (named / NumPy number kind / operand "
         "position); a case is non-trivial when it has two operands of which at least one carries a vocabulary, a "
